@@ -97,7 +97,7 @@ int main(void)
 #endif
 #if MODE == 3
     char *out; uint64_t outlen;   /* uninitialised */
-    int force = (VAR == 0) ? vin_bool() : (VAR == 1);   /* symbolic only where the call returns before the fragment loop */
+    int force = (VAR == 0) ? vin_bool() : 0;   /* symbolic only where the call returns before the fragment loops; concrete otherwise (symex would unroll the validation loop for a symbolic count) */
     int rc = liberasurecode_decode(d, n_fr ? NULL : frags, nf, flen, force, n_out ? NULL : &out, n_len ? NULL : &outlen);
     CHECK(rc < 0, "decode with an invalid argument must return a negative code");
 #else
